@@ -642,6 +642,10 @@ func (pe *PolicyEngine) createPodOwnersMap() (map[string]Peer, error) {
 			return nil, err
 		}
 		workload := &k8s.WorkloadPeer{Pod: pod}
+		if other, ok := res[workload.String()]; ok && other.(*k8s.WorkloadPeer).Pod.Name < pod.Name {
+			// the owner is represented by its pod with the smallest name, not by whichever pod the map iteration yields last
+			continue
+		}
 		res[workload.String()] = workload
 	}
 	return res, nil
